@@ -277,6 +277,54 @@ Proof.
     simpl. apply andb_true_iff. split; [apply Nat.ltb_lt; lia | exact Hrem].
 Qed.
 
+(* encode mode with an index list *)
+Lemma enc_docs_select_nl docs :
+  forallb doc_ok docs = true -> forallb (fun d => bytes_okb (doc_text d)) docs = true ->
+  forall idx i fuel, idx <> [] -> incr_from i idx = true -> (length docs < fuel)%nat ->
+  enc_docs fuel true true (doc_records docs) i idx =
+    TOk (unrecords 10 (map (fun d => rfc4648 (doc_text d)) (select_docs idx i docs))).
+Proof.
+  induction docs as [|d ds IH]; intros Hd Hb idx i fuel Hne Hinc Hf.
+  - destruct fuel; [simpl in Hf; lia|]. reflexivity.
+  - simpl in Hd, Hb. apply andb_true_iff in Hd. destruct Hd as [Hd Hds].
+    apply andb_true_iff in Hb. destruct Hb as [Hb Hbs].
+    destruct fuel; [simpl in Hf; lia|]. simpl in Hf.
+    destruct idx as [|x rem]; [congruence|].
+    simpl in Hinc. apply andb_true_iff in Hinc. destruct Hinc as [Hix Hrem]. apply Nat.ltb_lt in Hix.
+    unfold doc_records. simpl flat_map. rewrite <- app_assoc. simpl app.
+    cbn [enc_docs]. rewrite (take_doc_nl d _ Hd). simpl app. cbn [andb select_docs].
+    fold (doc_records ds).
+    destruct (Nat.eqb x (S i)) eqn:E.
+    + apply Nat.eqb_eq in E. subst x. rewrite (encode_is_rfc4648_proof _ Hb). cbn [orb].
+      destruct rem as [|y rem'].
+      * cbn [is_nil]. destruct ds; unfold unrecords; simpl; rewrite ?app_nil_r; reflexivity.
+      * cbn [is_nil]. rewrite (IH Hds Hbs (y :: rem') (S i) fuel) by (congruence || exact Hrem || lia).
+        unfold unrecords. simpl. rewrite <- app_assoc. reflexivity.
+    + apply Nat.eqb_neq in E. apply IH; try assumption; try congruence; try lia.
+      simpl. apply andb_true_iff. split; [apply Nat.ltb_lt; lia | exact Hrem].
+Qed.
+
+Lemma enc_docs_select_nul texts : forallb bytes_okb texts = true ->
+  forall idx i fuel, idx <> [] -> incr_from i idx = true -> (length texts < fuel)%nat ->
+  enc_docs fuel false true texts i idx = TOk (unrecords 10 (map rfc4648 (select_docs idx i texts))).
+Proof.
+  induction texts as [|t ts IH]; intros Hok idx i fuel Hne Hinc Hf.
+  - destruct fuel; [simpl in Hf; lia|]. reflexivity.
+  - simpl in Hok. apply andb_true_iff in Hok. destruct Hok as [Ht Hts].
+    destruct fuel; [simpl in Hf; lia|]. simpl in Hf.
+    destruct idx as [|x rem]; [congruence|].
+    simpl in Hinc. apply andb_true_iff in Hinc. destruct Hinc as [Hix Hrem]. apply Nat.ltb_lt in Hix.
+    cbn [enc_docs take_doc app andb select_docs].
+    destruct (Nat.eqb x (S i)) eqn:E.
+    + apply Nat.eqb_eq in E. subst x. rewrite (encode_is_rfc4648_proof _ Ht). cbn [orb].
+      destruct rem as [|y rem'].
+      * cbn [is_nil]. destruct ts; unfold unrecords; simpl; rewrite ?app_nil_r; reflexivity.
+      * cbn [is_nil]. rewrite (IH Hts (y :: rem') (S i) fuel) by (congruence || exact Hrem || lia).
+        unfold unrecords. simpl. rewrite <- app_assoc. reflexivity.
+    + apply Nat.eqb_neq in E. apply IH; try assumption; try congruence; try lia.
+      simpl. apply andb_true_iff. split; [apply Nat.ltb_lt; lia | exact Hrem].
+Qed.
+
 (* main()'s normalisation of the index list: sorted, duplicates removed, same elements *)
 Lemma insert_sorted_in a l x : In x (insert_sorted a l) <-> x = a \/ In x l.
 Proof.
@@ -384,4 +432,77 @@ Proof.
     apply existsb_exists in E2. destruct E2 as [x [Hx Hpx]]. apply Hin in Hx.
     assert (existsb (Nat.eqb p) (norm_indices (a :: idx')) = true) as C by (apply existsb_exists; exists x; tauto).
     congruence.
+Qed.
+
+Lemma norm_indices_facts idx : idx <> [] -> (forall x, In x idx -> (1 <= x)%nat) ->
+  (forall x, In x (norm_indices idx) <-> In x idx) /\ incr_from 0 (norm_indices idx) = true /\ norm_indices idx <> [].
+Proof.
+  intros Hne Hpos.
+  assert (forall x, In x (norm_indices idx) <-> In x idx) as Hin.
+  { intros x. unfold norm_indices. change docenc_indices_unique with true. cbv iota.
+    rewrite uniq_adjacent_in, sort_nat_in. tauto. }
+  split; [exact Hin|]. split.
+  - unfold norm_indices. change docenc_indices_unique with true. cbv iota.
+    apply uniq_adjacent_incr; [apply sort_nat_sorted|].
+    intros x Hx. apply (proj1 (sort_nat_in _ _)) in Hx. specialize (Hpos x Hx). lia.
+  - destruct idx as [|a r]; [congruence|]. intros Hnil.
+    assert (In a (norm_indices (a :: r))) as Ha by (apply Hin; left; reflexivity).
+    rewrite Hnil in Ha. destruct Ha.
+Qed.
+
+Lemma filter_idx_ext {A} (idx idx' : list nat) (l : list (nat * A)) :
+  (forall x, In x idx' <-> In x idx) ->
+  filter (fun pd => existsb (Nat.eqb (fst pd)) idx') l = filter (fun pd => existsb (Nat.eqb (fst pd)) idx) l.
+Proof.
+  intros Hin. apply filter_ext. intros [p d]. cbn [fst].
+  destruct (existsb (Nat.eqb p) idx') eqn:E1.
+  - apply existsb_exists in E1. destruct E1 as [x [Hx Hpx]]. apply Hin in Hx.
+    symmetry. apply existsb_exists. exists x. tauto.
+  - destruct (existsb (Nat.eqb p) idx) eqn:E2; [|reflexivity].
+    apply existsb_exists in E2. destruct E2 as [x [Hx Hpx]]. apply Hin in Hx.
+    assert (existsb (Nat.eqb p) idx' = true) as C by (apply existsb_exists; exists x; tauto).
+    congruence.
+Qed.
+
+Lemma no_zero idx : (forall x, In x idx -> (1 <= x)%nat) -> existsb (Nat.eqb 0) idx = false.
+Proof.
+  intros Hpos. destruct (existsb (Nat.eqb 0) idx) eqn:E; [|reflexivity]. exfalso.
+  apply existsb_exists in E. destruct E as [x [Hin Hx]]. apply Nat.eqb_eq in Hx. subst x.
+  specialize (Hpos _ Hin). lia.
+Qed.
+
+Theorem docenc_index_select_encode_newline_proof docs idx :
+  forallb doc_ok docs = true -> forallb (fun d => bytes_okb (doc_text d)) docs = true ->
+  idx <> [] -> (forall x, In x idx -> (1 <= x)%nat) ->
+  encode_tool 10 idx (decoded_stream 10 (map doc_text docs)) =
+    TOk (b64_file (map doc_text
+      (map snd (filter (fun pd => existsb (Nat.eqb (fst pd)) idx) (combine (seq 1 (length docs)) docs))))).
+Proof.
+  intros Hd Hb Hne Hpos. destruct (norm_indices_facts idx Hne Hpos) as (Hin & Hinc & Hnn).
+  unfold encode_tool. rewrite (no_zero idx Hpos), andb_false_r.
+  change docenc_encode_strip_cr with false.
+  rewrite decoded_stream_nl, records_unrecords by (apply doc_records_no_delim; exact Hd).
+  change (10 =? 10) with true.
+  destruct idx as [|a idx']; [congruence|]. cbn [is_nil negb].
+  rewrite (enc_docs_select_nl docs Hd Hb (norm_indices (a :: idx')) 0 _ Hnn Hinc)
+    by (pose proof (doc_records_length docs); lia).
+  rewrite (select_docs_spec docs _ 0 Hinc). unfold b64_file.
+  rewrite (filter_idx_ext (a :: idx') (norm_indices (a :: idx')) _ Hin). rewrite !map_map. reflexivity.
+Qed.
+
+Theorem docenc_index_select_encode_nul_proof texts idx :
+  forallb bytes_okb texts = true -> forallb (no_delim 0) texts = true ->
+  idx <> [] -> (forall x, In x idx -> (1 <= x)%nat) ->
+  encode_tool 0 idx (decoded_stream 0 texts) =
+    TOk (b64_file (map snd (filter (fun pd => existsb (Nat.eqb (fst pd)) idx) (combine (seq 1 (length texts)) texts)))).
+Proof.
+  intros Hok Hnd Hne Hpos. destruct (norm_indices_facts idx Hne Hpos) as (Hin & Hinc & Hnn).
+  unfold encode_tool, decoded_stream. rewrite (no_zero idx Hpos), andb_false_r.
+  change docenc_encode_strip_cr with false.
+  rewrite records_unrecords by exact Hnd.
+  change (0 =? 10) with false.
+  destruct idx as [|a idx']; [congruence|]. cbn [is_nil negb].
+  rewrite (enc_docs_select_nul texts Hok (norm_indices (a :: idx')) 0 _ Hnn Hinc) by lia.
+  rewrite (select_docs_spec texts _ 0 Hinc). unfold b64_file.
+  rewrite (filter_idx_ext (a :: idx') (norm_indices (a :: idx')) _ Hin). reflexivity.
 Qed.
